@@ -81,7 +81,17 @@ def _quat4(rng, mag, pat):
 
 
 def _check_ggivens(ctx, U, x1, x2, tags):
-    G = U.ggivens(x1.copy(), x2.copy())
+    # ENVIRONMENT: every third pair under numpy's divide='raise', invalid='raise' error mode (a 0/0 evaluated and discarded must not surface)
+    if int(np.sum(np.concatenate([x1, x2]) != 0)) % 3 == 0:
+        ctx.hit("environment:numpy_errstate_raise")
+        try:
+            with np.errstate(divide="raise", invalid="raise"):
+                G = U.ggivens(x1.copy(), x2.copy())
+        except Exception as e:
+            ctx.check("ggivens_orthogonal", False, site="ggivens:errstate_raise", tags=tags, detail={"exception": repr(e)[:200], "x1": x1, "x2": x2})
+            return
+    else:
+        G = U.ggivens(x1.copy(), x2.copy())
     t = float(np.linalg.norm(np.concatenate([x1, x2])))
     n1, n2 = np.linalg.norm(x1), np.linalg.norm(x2)
     if t <= refq.EPS:
@@ -224,8 +234,14 @@ def judge_hessqr(ctx, U, H, site, tags=()):
     m, n = H.shape
     c = refq.fa(H)
     Hess = np.vstack([c[..., 0], c[..., 1], c[..., 2], c[..., 3]]).copy()
+    strict = (int(np.sum(c != 0)) + m) % 3 == 0          # ENVIRONMENT: numpy error mode divide / invalid = 'raise' for every third input
     try:
-        Wf, Rf = U.Hess_QR_ggivens(Hess)
+        if strict:
+            ctx.hit("environment:numpy_errstate_raise")
+            with np.errstate(divide="raise", invalid="raise"):
+                Wf, Rf = U.Hess_QR_ggivens(Hess)
+        else:
+            Wf, Rf = U.Hess_QR_ggivens(Hess)
         W0, W1, W2, W3 = U.A2A0123(Wf)
         R0, R1, R2, R3 = U.A2A0123(Rf)
     except Exception as e:
